@@ -63,7 +63,13 @@ SPECIFICATION Spec
 {invs}
 """
 
-JAVA_OPTS = "-DTLA-Library=/verif/spec -Xmx3g -XX:ParallelGCThreads=2"
+# measured on this (shared) machine: a small young generation avoids touching a gigabyte of fresh heap
+# per JVM, and the short runs of the quick tier do not repay the optimising JIT compiler
+# (enum-depth2-12leaves: 45-59 CPU-s with the defaults, 19 CPU-s with JAVA_OPTS_SHORT)
+JAVA_BASE = "-DTLA-Library=/verif/spec -Xmx3g -XX:ParallelGCThreads=2"
+JAVA_OPTS_SHORT = JAVA_BASE + " -Xmn128m -XX:TieredStopAtLevel=1 -XX:CICompilerCount=1"
+JAVA_OPTS_LONG = JAVA_BASE + " -Xmn256m -XX:CICompilerCount=2"
+JAVA_OPTS = JAVA_OPTS_SHORT
 
 ALL_LEAVES = set(range(1, 29))
 # a sub-alphabet: f, g, c, d; matrices (V,V) (V,W) (V,V*) (W,V*); forms a_VV af_VV L_V Lf_V Lq_V J_q;
@@ -930,8 +936,24 @@ def nontrivial(ops):
     return len(ops) >= 2 or ops[0][0] in (5, 6, 7, 8, 9, 10) or (ops[0][0] == 4 and ops[0][3] == 1)
 
 
+_TABLES = {}  # leaf-selection key -> leaf table (registered before the workers are forked)
+_ENVS = {}  # per process: key -> (Env, Assembler, status cache)
+
+
+def table_key(table):
+    return json.dumps(table["leaves"], separators=(",", ":"))
+
+
 def _work(raw):
-    """Replay a chunk of dump lines (both API variants)."""
+    """Replay a chunk of dump lines (both API variants).  raw = lines (the environment is the one
+    of setup()) or (table key, lines)."""
+    global _E, _ASM, _STATUS
+    if isinstance(raw, tuple):
+        key, raw = raw
+        if key not in _ENVS:
+            E = Env(_TABLES[key])
+            _ENVS[key] = (E, Assembler(E), {})
+        _E, _ASM, _STATUS = _ENVS[key]
     n = checks = 0
     fails = []
     counters = {}
@@ -958,9 +980,13 @@ def _work(raw):
 _POOL = None
 
 
-def start_pool(table, nproc=8):
+def start_pool(tables, nproc=8):
+    """One pool for the run (forking is expensive on this machine: every worker faults in its copy
+    of the pages it touches); the workers build the environment of a leaf selection on demand."""
     global _POOL
-    setup(table)  # the ufl objects exist before the workers are forked
+    for t in tables:
+        _TABLES[table_key(t)] = t
+    setup(tables[0])  # ufl is imported before the workers are forked
     if _POOL is None:
         _POOL = multiprocessing.get_context("fork").Pool(nproc)
 
@@ -986,7 +1012,10 @@ def conform(ctx, table, lines, tag):
     lines = sorted(set(lines))
     # small runs: one chunk per worker (at least 60 lines, so that sub-programs are still shared)
     chunks = _chunks(lines, max(60, min(250, -(-len(lines) // 8))))
-    results = _POOL.map(_work, chunks, chunksize=1) if _POOL is not None and len(chunks) > 1 else [_work(c) for c in chunks]
+    key = table_key(table)
+    _TABLES.setdefault(key, table)
+    tasks = [(key, c) for c in chunks]
+    results = _POOL.map(_work, tasks, chunksize=1) if _POOL is not None and len(chunks) > 1 else [_work(t) for t in tasks]
     nprog = 0
     allfails = []
     for n, checks, fails, counters, distinct in results:
@@ -1049,6 +1078,8 @@ def run(ctx, args):
     ctx.assume("predictions with an entry outside the exact range of CQ.tla (|n|, d <= 20000) are not compared (counted as undefined_skipped)")
     t0 = time.time()
     seed = ctx.seed
+    global JAVA_OPTS
+    JAVA_OPTS = JAVA_OPTS_SHORT if quick else JAVA_OPTS_LONG
     if quick:
         jobs = [
             Job("laws-depth1-10leaves", 1, leaves={1, 4, 7, 10, 13, 17, 19, 22, 24, 26}, weights=(1, 4), zeros=(2,), dercoefs=(1,), dump=False, invs=LAW_INVS),
@@ -1083,28 +1114,27 @@ def run(ctx, args):
             tlc.require_ok(j.res, f"BaseForms[{j.key}]")  # the model itself is wrong: machinery
     table = None
     total = 0
+    dumps = []
+    # shallow exhaustive runs first, so that the cases kept per fingerprint are minimal
+    for j in sorted(jobs, key=lambda j: (bool(j.simulate), j.maxops)):
+        if not j.dump:
+            continue
+        tab, lines = split_prints(j)
+        j.res.stdout, j.res.prints = "", []
+        if not lines:
+            raise MachineryError(f"BaseForms[{j.key}]: no program printed")
+        if not j.simulate and len(lines) != j.res.distinct - 1 and j.maxops <= 2:
+            # exhaustive runs of depth <= 2: every state but the initial one is a live program
+            raise MachineryError(f"BaseForms[{j.key}]: {j.res.distinct} states but {len(lines)} dump lines")
+        dumps.append((j, tab, lines))
     try:
-        # shallow exhaustive runs first, so that the cases kept per fingerprint are minimal
-        for j in sorted(jobs, key=lambda j: (bool(j.simulate), j.maxops)):
-            if not j.dump:
-                continue
-            tab, lines = split_prints(j)
-            if not lines:
-                raise MachineryError(f"BaseForms[{j.key}]: no program printed")
-            if not j.simulate and len(lines) != j.res.distinct - 1 and j.maxops <= 2:
-                # exhaustive runs of depth <= 2: every state but the initial one is a live program
-                raise MachineryError(f"BaseForms[{j.key}]: {j.res.distinct} states but {len(lines)} dump lines")
-            if table is None:
-                table = tab
-                start_pool(table)
-            if tab["leaves"] != table["leaves"]:
-                # another leaf selection: the operand indices refer to another store
-                stop_pool()
-                table = tab
-                start_pool(table)
+        # every leaf selection has its own table (the operand indices refer to its store)
+        start_pool([tab for _, tab, _ in dumps])
+        for j, tab, lines in dumps:
+            table = tab
             total += conform(ctx, tab, lines, j.key)
-            j.res.stdout, j.res.prints = "", []
             print(f"  {j.key}: {len(lines)} lines replayed, {time.time() - t0:.1f}s", flush=True)
+            lines.clear()
     finally:
         stop_pool()
     need = 2000 if quick else 50000
